@@ -123,6 +123,25 @@ def run(ctx):
         return None
     guarded(r_val, "relative:textselection_by_offset", model.fns["sel.textselection_by_offset"], o2)
 
+    # ---------------- O0: the cursor resolution every offset API of the Text trait goes through
+    def o0():
+        fn = model.fns["res.beginaligned_cursor"]
+        for L in range(0, LMAX + 1):
+            res = resource(L)
+            for c in cursors(L):
+                want = resolve(c, L)
+                if want is not None and not (0 <= want <= L):
+                    want = None
+                try:
+                    r = model.run("res.beginaligned_cursor", res, [c])
+                except Panic as p:
+                    return ("%s panics (%s) for cursor %s on a text of length %d" % (fn.qual, p.kind, cname(c), L), p.line)
+                got = r[1] if isinstance(r, tuple) and r[0] == "ok" else None
+                if got != want:
+                    return ("%s resolves the cursor %s on a text of length %d to %s; %s" % (fn.qual, cname(c), L, "position %s" % got if got is not None else "an error", "it lies outside the text and must be refused (text_by_offset / absolute_offset / textselection on a sub-selection otherwise reach beyond the selection, up to a slice panic)" if want is None else "expected position %d" % want), None, {"L": L, "cursor": cname(c)})
+        return None
+    guarded(r_val, "cursor:beginaligned_cursor", model.fns["res.beginaligned_cursor"], o0)
+
     # ---------------- O2b: relative -> absolute conversion used by <selection>.textselection(offset) / STAMQL OFFSET
     def o2b():
         fn = model.fns["sel.absolute_offset"]
